@@ -468,7 +468,17 @@ func (lc *litCtx) lit(t *Term, typ types.Type, depth int) (string, error) {
 			}
 			return name, nil
 		}
-		return "", fmt.Errorf("pointer to %s not constructible", u.Elem())
+		// pointer to a non-struct cell
+		cn, cs := x.cellComp(u.Elem())
+		cell := ts.Select(x.comp(lc.st, cn, cs), t)
+		e, err := lc.lit(cell, u.Elem(), depth+1)
+		if err != nil {
+			return "", err
+		}
+		lc.nvar++
+		name := fmt.Sprintf("p%d", lc.nvar)
+		fmt.Fprintf(lc.pre, "\t%s := new(%s)\n\t*%s = %s\n", name, lc.typeStr(u.Elem()), name, e)
+		return name, nil
 	case *types.Struct:
 		si := w.structOf(typ)
 		var parts []string
